@@ -439,7 +439,7 @@ class World:
         base['specifier'] = f'{mname}:{cw}'
         if c['arg'] is None:
             if q < 0.3:
-                return dict(base, line=f'do {mname}:{cw} {json.dumps(rng.choice([1, "x", [1], {"a": 1}, True]))}', klass='argument-not-expected',
+                return dict(base, line=f'do {mname}:{cw} {json.dumps(rng.choice([1, "x", [1], {"a": 1}, True, 0, 0.0, False, "", [], {}]))}', klass='argument-not-expected',
                             expect={'kind': 'refuse', 'classes': BADVALUE | {'ProtocolError'}})
             return dict(base, line=f'do {mname}:{cw}', payload=None, klass='valid-do', expect={'kind': 'accept', 'calls': 1})
         if q < 0.2:
